@@ -123,6 +123,13 @@ def part_a(rec, li, n, seed, only=None):
                         scale = float(1 + ncall % 3)
                         base = base0 * scale
                         da = xr.DataArray(base.copy(), dims=["b", S.dimname("X", fr)])
+                        if supply == "callmap":
+                            # a read-only, non-contiguous view as input (every second element of a wider buffer)
+                            wide = np.repeat(base, 2, axis=1)
+                            wide[:, 1::2] = -777.0
+                            view = wide[:, ::2]
+                            view.setflags(write=False)
+                            da = xr.DataArray(view, dims=["b", S.dimname("X", fr)])
                         if g is None:
                             g = build_grid({"X": layout}, {"X": n}, gkw)
                             if supply in ("grid", "gridmap", "default"):
